@@ -508,7 +508,8 @@ def run(tier, seed, result):
     for n, viols in pmap(gate_job, [(False,), (True,)]):
         total += n
         for key, msg in viols:
-            result.violation(key, msg, {'case': msg[:200]})
+            result.violation(key, msg, {'case': msg[:200], 'rerun': {
+                'module': 'mc.checks.c18', 'func': 'rerun_gate'}})
     result.add('gate_cases', total)
     jobs = [(ia, mode, ro) for ia in (False, True)
             for mode in ('development', 'production')
@@ -519,7 +520,8 @@ def run(tier, seed, result):
         nro += n
         eff += effective
         for key, msg in viols:
-            result.violation(key, msg, {'case': msg[:200]})
+            result.violation(key, msg, {'case': msg[:200], 'rerun': {
+                'module': 'mc.checks.c18', 'func': 'rerun_readonly'}})
     result.add('readonly_cases', nro)
     result.add('admin_requests_with_effect_when_writable', eff)
     if eff == 0:
@@ -532,7 +534,8 @@ def run(tier, seed, result):
                           for adm in (True, False)]):
         npub += n
         for key, msg in viols:
-            result.violation(key, msg, {'case': msg[:200]})
+            result.violation(key, msg, {'case': msg[:200], 'rerun': {
+                'module': 'mc.checks.c18', 'func': 'rerun_pubsub'}})
     result.add('pubsub_transparency_steps', npub)
     depth = 3 if tier == 'quick' else 5
     for is_async in (False, True):
@@ -567,3 +570,25 @@ def run(tier, seed, result):
              'frames, handler log, callbacks, rooms' % depth,
         explanation=' | '.join(notes),
         exhaustive=False)
+
+
+def rerun_gate(result):
+    for ia in (False, True):
+        for key, msg in gate_job((ia,))[1]:
+            result.violation(key, msg)
+
+
+def rerun_readonly(result):
+    for ia in (False, True):
+        for mode in ('development', 'production'):
+            for ro in (True, False):
+                for key, msg in readonly_job((ia, mode, ro))[2]:
+                    result.violation(key, msg)
+
+
+def rerun_pubsub(result):
+    for ia in (False, True):
+        for mode in ('development', 'production'):
+            for adm in (True, False):
+                for key, msg in pubsub_transparency_job((ia, mode, adm))[1]:
+                    result.violation(key, msg)
